@@ -180,11 +180,13 @@ def run(params, tape, detail=False):
         for j in range(n_ncp):
             t2 += GAPS[tape.draw(len(GAPS), "gap.n")]
             loop.external(t2, ncp.submit, ncp_payloads[j], j)
-        end = max(t, t2) + 5.0
+        end = max(t, t2) + 5.0 + 8.0 * tape.draw(3, "extra")
         # while faults flow, a failed link may be reset by the upper layer (as Gateway/EZSP would)
         while loop.time() < end:
             await asyncio.sleep(1.0)
-            if recover and mon.failed and recoveries[0] < 3 and tape.draw(2, "recover"):
+            # a single RST per run: a second RST while the first RSTACK is still in flight is the
+            # reset-handshake race that belongs to C09/C11, not to the data path checked here
+            if recover and mon.failed and recoveries[0] < 1 and tape.draw(2, "recover"):
                 recoveries[0] += 1
                 mon._probe("link_reset_after_failure")
                 try:
